@@ -51,6 +51,9 @@ def cases(tier, seed):
                                     redef=redef, seed=seed))
         if lam == 'general' and form == '6x6' and gq == 'exact' and fb == 'generic' and (m, n) in [(2, 2), (3, 2)]:
             out.append(dict(kind='panel', model=model, lam=lam, fbase=fb, m=m, n=n, state=st, gq=gq, form=form, ortho=1, seed=seed))
+    # Gauss orders taken from the panel attributes nx, ny (not passed to the calls), different in the two directions
+    for model, (m, n), st in itertools.product(['plate', 'cpanel'], [(3, 6), (6, 3)], ['moderate', 'large']):
+        out.append(dict(kind='panel', model=model, lam='general', fbase='SSSS', m=m, n=n, state=st, gq='exact', form='6x6', via_attr=1, seed=seed))
     for conn, order, st, hist in itertools.product(['SSycte', 'SSxcte', 'BFycte', 'SB'], ['p1first', 'p2first'], ['moderate', 'large'],
                                                    ['plain', 'kT_nofinalize_first', 'k0_nofinalize_first']):
         out.append(dict(kind='assembly', conn=conn, order=order, state=st, hist=hist, seed=seed))
@@ -130,6 +133,9 @@ def check_panel(case):
         fails.append(fail('linear stiffness differs from the strain-energy Hessian for the laminate used by the non-linear quantities', sig=None, case=case,
                           rel=float(np.abs(k0 - k0r).max() / np.abs(k0r).max())))
     kw = dict(nx=nx, ny=ny, silent=True)
+    if case.get('via_attr'):
+        p.nx, p.ny = nx, ny
+        kw = dict(silent=True)
     if Fin is not None:
         kw['Fnxny'] = Fin
 
